@@ -376,7 +376,7 @@ class Program:
     """parsed MIR of one or more crates + closure identities + function resolution"""
     def __init__(s):
         s.fns = {}; s.statics = {}; s.consts = {}; s.allocs = {}; s.clo_of_local = {}; s.clo_on_line = {}
-        s.methods = {}; s.traitm = {}; s.free = {}; s.sources = {}; s.text = {}
+        s.methods = {}; s.traitm = {}; s.free = {}; s.sources = {}; s.text = {}; s.clo_zs_on_line = {}
     def load(s, plain, verbose=None, tag=''):
         items, allocs = parse_file(plain)
         plines = open(plain).read().split('\n')
@@ -399,6 +399,8 @@ class Program:
                     mm = re.match(r'^\s*let (?:mut )?_(\d+): ', pl)
                     if mm and names: s.clo_of_local[(f.name, int(mm.group(1)))] = names[0]
                     if names: s.clo_on_line[(tag, ln)] = names
+                    zs = re.findall(r'ZeroSized: \{(?:static )?((?:[^{} ]|\{(?:closure|constant|impl)#\d+\})*?\{closure#\d+\}) (?:closure_kind_ty|upvar_tys|resume_ty)', vlines[ln - 1])
+                    if zs: s.clo_zs_on_line[(tag, ln)] = zs
         for k, v in allocs.items(): s.allocs[(tag, k)] = v
         s._index()
     def fn_hash(s, f):
@@ -682,6 +684,9 @@ class Interp:
                 if len(c2) == 1: name = c2[0]
         if name is None and dest is not None and not dest.proj:
             name = s.p.clo_of_local.get((f.name, dest.local))
+        if name is None and dest is None:
+            zs = s.p.clo_zs_on_line.get((f.tag, ln), [])
+            if len(set(zs)) == 1: name = zs[0]
         if name is None:
             names = s.p.clo_on_line.get((f.tag, ln), [])
             if names: name = names[0]
@@ -968,14 +973,16 @@ class Interp:
             return c.fn(ctx, args)
         raise Unsupported(f'callable {c!r}')
 
-    def acquire(s, ctx, lk, mode):
-        """scheduling point + blocking acquire"""
+    def acquire(s, ctx, lk, mode, mult=1):
+        """scheduling point + blocking acquire.  The event records what a native run would do: kind 0 = Mutex::lock,
+        1 = RwLock::read, 2 = RwLock::write, and how many native acquisitions it stands for (DashMap: 'all' shards)"""
         yield ('acquire', lk, mode)
         if (mode == 'w' and lk.state != 0) or (mode == 'r' and lk.state < 0):
             raise Deadlock(('self', ctx.tid, lk.name, mode))
         lk.state = -1 if mode == 'w' else lk.state + 1
         lk.owners.append(ctx.tid)
-        ctx.events.append(('lock', ctx.tid, lk.name, mode))
+        kind = 0 if lk.kind == 'Mutex' else (1 if mode == 'r' else 2)
+        ctx.events.append(('lock', ctx.tid, lk.name, mode, kind, mult))
         return GuardM(lk, mode, ctx.tid)
     def sched_point(s, ctx, what):
         yield ('yield', None, what)
